@@ -609,13 +609,8 @@ Section Progress.
         intro Hsh. destruct (N3 Hsh) as (N4 & _). apply N4; reflexivity. }
       unfold Fb, Ph, Pg, Pt, nonempty, shape in *. rewrite ?U1, ?U2, ?U3. cbn. rewrite ?T7, ?T8, ?T9, ?T10, ?T12.
       destruct Hf as (F1 & F2 & F3 & F4 & F5 & F6 & F7). destruct (F3 Ea Ep) as (F31 & F32).
-      split; [|split; [intros A B; congruence|split]].
-      + split; [exact F1|]. split; [exact F2|]. split; [intros _ _; split; [exact RN|]; intro Ht; destruct (NC Ht) as (N1 & N2 & N3); destruct (F32 Ht) as (F33 & _); split; congruence|].
-        split; [intros A; discriminate A|]. split; [intro A; congruence|]. split; [|intros A B; congruence].
-        intros A _ _. exfalso. assert (Ht : ptyp (pa s) <> PChunked) by (destruct (F6 A Ea Ep) as (_ & [(S1 & _)|(S1 & _)]); congruence).
-        destruct (NC Ht) as (_ & _ & N3). apply N3. destruct (F6 A Ea Ep) as (_ & S0). exact S0.
-      + intros G0. intros Hr. apply T5. apply G0; exact Hr.
-      + exact T3.
+      intuition (try congruence). Show.
+    all: fail.
     - (* HAS_PENDING_INPUT *)
       match goal with |- context [pr_set H s1 ?g] => destruct (pr_set_proj s1 g) as (U1 & U2 & U3 & U4); set (s' := pr_set H s1 g) in * end. clearbody s'.
       split; [unfold W in *; rewrite U3; exact Hw1|]. split; [|split; [rewrite U3, T13; auto|rewrite U1; cbn; exact T8]].
